@@ -606,3 +606,8 @@ def rules(ctx):
     ctx.floor("C09.alias-write", 20)
     from . import common_alias as _CA
     _CA.shallow_copy_mutation(ctx, "C09.shallow-copy", ("program.py", "program_utils.py", "engine.py", "utils/program_functions.py", "tdm/program.py", "io/blackbird_io.py", "io/xir_io.py"))
+    # time-domain programs are user programs too: what unrolling changes is undone by roll(), template operations are copied
+    from . import c13 as _c13
+    ctx.shared(_c13.undo)
+    ctx.shared(_c13.op_clone)
+    ctx.shared(_c13.neg_slice)
